@@ -6,7 +6,7 @@ THEOREMS = ['Feox.C09.ack_implies_durable', 'Feox.C09.failure_never_destroys_dur
 
 
 def run(ctx):
-    return proto_check(ctx, MODULE, THEOREMS, ['fault'], ['faults=1'], ['faults=8'], ['C09'], "I/O failure handling", [
+    return proto_check(ctx, MODULE, THEOREMS, ['fault'], ['faults=2'], ['faults=10'], ['C09'], "I/O failure handling", [
         "kernel / file system: a write either fails or lands; a completed fsync makes every earlier write durable; a crash loses or tears (512 B) any subset of the un-synced writes only",
         "TornDetect: a torn journal slot / metadata block fails its checksum or equals the old or the new image (DESIGN.md section 2) — a hypothesis, not an axiom",
         "the abstract disk (Feox.Proto.Disk) is related to bytes by the Lean reader Feox.Fmt.recoverImage, itself compared with the real recovery on every crash image of this run",
